@@ -32,6 +32,7 @@ const (
 	httpUnauthorized = "HTTP/1.1 401 Unauthorized" + crlf
 	httpUnavailable  = "HTTP/1.1 503 Service Unavailable" + crlf
 	httpReadTimeout  = 10 * time.Second
+	httpWriteTimeout = 10 * time.Second
 	channelTimeout   = 2 * time.Second
 	jsonContentType  = "Content-Type: application/json" + crlf
 	maxContentLength = 1024 * 1024
@@ -113,7 +114,10 @@ func startHttpServer(address listenAddress, actionChannel chan []*action, getHan
 				}
 				continue
 			}
-			conn.Write([]byte(server.handleHttpRequest(conn)))
+			response := server.handleHttpRequest(conn)
+			// Do not let a client that is not reading block the other clients
+			conn.SetWriteDeadline(time.Now().Add(httpWriteTimeout))
+			conn.Write([]byte(response))
 			conn.Close()
 		}
 	}()
